@@ -103,8 +103,113 @@ def gen_cases(ctx):
         else:
             yield ('affine_round', [tuple(F(rng.randint(-10**7, 10**7), rng.choice([10**4, 2**10, 3, 10**7, 2 * 10**3])) for _ in range(6)), rng.randint(0, 6)]), True
 
+# ---------------------------------------------------------------- transform strings (hand model of the lexer)
+from picosvg.svg_transform import parse_svg_transform
+NUMS = ['0', '1', '-1', '2', '.5', '0.25', '-3.5', '1e1', '2E-1', '+4', '45', '90', '30', '1.', '100']
+BAD = ['', 'x', '1e', '--1', '1..2', '.', 'e1']
+SEPS = [',', ' ', ', ', ' , ', '  ', '\t', '\n', ' ,']
+OPS = {'matrix': [6], 'translate': [1, 2], 'scale': [1, 2], 'rotate': [1, 3, 2], 'skewX': [1], 'skewY': [1]}
+
+def gen_op(rng, wild):
+    op = rng.choice(list(OPS))
+    k = rng.choice(OPS[op]) if rng.random() < 0.9 or not wild else rng.randint(1, 7)
+    nums = [rng.choice(NUMS) for _ in range(k)]
+    if op.startswith('skew') and nums[0] == '90': nums[0] = '30'   # tan(90deg) ~ 1.6e16: float cancellation, not modelled
+    if wild and rng.random() < 0.15: nums[rng.randrange(k)] = rng.choice(BAD)
+    sep = rng.choice(SEPS)
+    body = nums[0]
+    for x in nums[1:]:
+        body += (rng.choice(SEPS) if rng.random() < 0.3 else sep) + x
+    if rng.random() < 0.2: body = rng.choice([' ', '\n', '  ']) + body
+    if rng.random() < 0.2: body = body + rng.choice([' ', '\t'])
+    if wild and rng.random() < 0.05: body = body + rng.choice([',', ',,', ' ,'])
+    name = op
+    r = rng.random()
+    if r < 0.15: name = op.upper()
+    elif r < 0.3: name = op.lower()
+    return name + rng.choice(['', '', ' ', '\t', '  ']) + '(' + body + ')', op, k
+
+def gen_tf_string(rng, wild=True):
+    n = rng.choice([1, 1, 2, 2, 3, 4, 5])
+    parts, ops = [], []
+    for _ in range(n):
+        s, op, k = gen_op(rng, wild); parts.append(s); ops.append(op)
+    s = parts[0]
+    for x in parts[1:]: s += rng.choice(['', ' ', ',', ', ', '\n', ' , ']) + x
+    if wild and rng.random() < 0.15:
+        # single-character mutation
+        i = rng.randrange(len(s) + 1)
+        ch = rng.choice('(), .-+e0123456789 \tmatrixsclkwXY')
+        s = rng.choice([s[:i] + ch + s[i:], s[:i] + s[i + 1:], s[:i] + ch + s[i + 1:]])
+    return s, ops
+
+def impl_parse(s):
+    try:
+        return ['ok', [float(v) for v in parse_svg_transform(s)]]
+    except ValueError: return ['err', 'ValueError']
+    except TypeError: return ['err', 'Other']
+    except ZeroDivisionError: return ['err', 'ZeroDivisionError']
+
+def close(a, b):
+    a, b = float(a), float(b)
+    return abs(a - b) <= 1e-9 * max(1.0, abs(a), abs(b))
+
+def corr_strings(ctx, stats):
+    m = ctx.model()
+    rng = ctx.rng
+    n = ctx.n(3000, 60000)
+    seen = set()
+    for i in range(n):
+        s, ops = gen_tf_string(rng, wild=(i % 3 != 0))
+        if s in seen: continue
+        seen.add(s)
+        if any(c in s for c in '_') or 'inf' in s.lower() or 'nan' in s.lower(): continue
+        impl = impl_parse(s)
+        mod = m.call('parse_svg_transform', s)
+        stats['evaluations'] += 1
+        stats['distribution']['tf_string'] = stats['distribution'].get('tf_string', 0) + 1
+        if impl[0] == 'err':
+            same = (canon(impl) == canon(mod))
+            stats['distribution']['tf_err:' + impl[1]] = stats['distribution'].get('tf_err:' + impl[1], 0) + 1
+        else:
+            scale = max([1.0] + [abs(v) for v in impl[1]])
+            same = mod[0] == 'ok' and all(abs(float(x) - float(y)) <= 1e-9 * scale for x, y in zip(impl[1], mod[1]))
+            if len(ops) >= 2 and len(set(ops)) >= 2:
+                stats['nontrivial'].add('tf:' + s)
+        if len(stats['samples']) < 9 and impl[0] == 'ok' and len(ops) >= 2 and i % 50 == 0:
+            stats['samples'].append({'call': 'parse_svg_transform', 'input': s, 'impl': impl, 'model': show(mod)})
+        if not same:
+            stats['disagreements'].append({'what': 'parse_svg_transform: model and implementation differ',
+                                           'input': jsonable(['parse_svg_transform', s]), 'impl': jsonable(impl), 'model': jsonable(mod)})
+            if len(stats['disagreements']) >= 10: break
+
+def corr_roundtrip(ctx, stats):
+    """tostring -> fromstring on the implementation, and the model reading the implementation's string"""
+    m = ctx.model(); rng = ctx.rng
+    pool = [0.0, 1.0, -1.0, 0.5, 2.0, 0.1, 1e-7, 1e22, -0.0, 0.1 + 0.2, 123456.789, 5e-324, 2.0 ** 53, 1 / 3]
+    for i in range(ctx.n(300, 5000)):
+        k = rng.random()
+        if k < 0.4: vals = (1.0, 0.0, 0.0, 1.0, rng.choice(pool), rng.choice(pool))
+        else: vals = tuple(rng.choice(pool) if rng.random() < 0.7 else rng.uniform(-100, 100) for _ in range(6))
+        A = Affine2D(*vals)
+        s = A.tostring()
+        back = Affine2D.fromstring(s)
+        mod = m.call('parse_svg_transform', s)
+        stats['evaluations'] += 1
+        stats['distribution']['tostring_roundtrip'] = stats['distribution'].get('tostring_roundtrip', 0) + 1
+        ok_impl = tuple(back) == tuple(A)
+        ok_model = mod[0] == 'ok' and all(float(x) == float(y) for x, y in zip(mod[1], A))
+        if vals[:4] != (1.0, 0.0, 0.0, 1.0): stats['nontrivial'].add('rt:' + s)
+        if not (ok_impl and ok_model):
+            stats['disagreements'].append({'what': 'tostring/fromstring round trip' + ('' if ok_impl else ' (implementation itself)'),
+                                           'input': jsonable(['roundtrip', list(vals)]), 'impl': s, 'model': jsonable(mod)})
+            if len(stats['disagreements']) >= 10: break
+
 def corr(ctx):
-    return run_corr(ctx, gen_cases(ctx), impl_call)
+    stats = run_corr(ctx, gen_cases(ctx), impl_call)
+    corr_strings(ctx, stats)
+    corr_roundtrip(ctx, stats)
+    return stats
 
 # ---------------------------------------------------------------- search (spec-judged, implementation only)
 LAT = [F(0), F(1), F(-1), F(2), F(1, 2), F(3)]
@@ -195,8 +300,42 @@ def search(ctx, broken, disagreements):
                     n += 1
                     v = judge_rect_to_rect(src, dst, al, mos)
                     if v: viol('rect_to_rect ' + v[0], {'src': src, 'dst': dst, 'align': al, 'meetOrSlice': mos}, v[1], v[2])
-    for d in disagreements:
-        pass
+    # transform strings: the attribute denotes the product of its operations, in order (spec-side matrices)
+    def spec_matrix(op, a):
+        r = math.radians
+        if op == 'matrix' and len(a) == 6: return tuple(a)
+        if op == 'translate' and len(a) in (1, 2): return (1, 0, 0, 1, a[0], a[1] if len(a) == 2 else 0)
+        if op == 'scale' and len(a) in (1, 2): return (a[0], 0, 0, a[1] if len(a) == 2 else a[0], 0, 0)
+        if op == 'rotate' and len(a) in (1, 3):
+            c, s_ = math.cos(r(a[0])), math.sin(r(a[0]))
+            cx, cy = (a[1], a[2]) if len(a) == 3 else (0, 0)
+            return (c, s_, -s_, c, cx - c * cx + s_ * cy, cy - s_ * cx - c * cy)
+        if op == 'skewX' and len(a) == 1: return (1, 0, math.tan(r(a[0])), 1, 0, 0)
+        if op == 'skewY' and len(a) == 1: return (1, math.tan(r(a[0])), 0, 1, 0, 0)
+        return None
+    def mm(A, B):
+        return (A[0]*B[0]+A[2]*B[1], A[1]*B[0]+A[3]*B[1], A[0]*B[2]+A[2]*B[3], A[1]*B[2]+A[3]*B[3],
+                A[0]*B[4]+A[2]*B[5]+A[4], A[1]*B[4]+A[3]*B[5]+A[5])
+    samples = [('translate', [3, 1]), ('translate', [2]), ('scale', [2]), ('scale', [2, 3]), ('rotate', [30]), ('rotate', [90, 1, 2]),
+               ('skewX', [30]), ('skewY', [45]), ('matrix', [1, 2, 3, 4, 5, 6])]
+    for k in (1, 2, 3):
+        for ops in itertools.product(samples, repeat=k):
+            for sep, asep in ((' ', ','), (',', ' '), ('', ' , ')):
+                n += 1
+                s = sep.join(f"{op}({asep.join(str(v) for v in a)})" for op, a in ops)
+                M = (1, 0, 0, 1, 0, 0)
+                for op, a in ops: M = mm(M, spec_matrix(op, a))
+                try: got = tuple(float(v) for v in Affine2D.fromstring(s))
+                except Exception as ex: got = repr(ex)
+                if isinstance(got, str) or max(abs(x - y) for x, y in zip(got, M)) > 1e-9 * max(1, max(abs(v) for v in M)):
+                    viol('transform attribute = product of its operations in order', {'string': s}, M, got); break
+            if len(found) > 3: break
+        if len(found) > 3: break
+    for vals in [(1.0, 0.0, 0.0, 1.0, 2.5, -3.0), (0.5, 0.1, -0.25, 2.0, 1e-7, 123456.789), (1.0, 0.0, 0.0, 1.0, 0.0, 0.0), (2.0, 0.0, 0.0, 2.0, 0.0, 0.0)]:
+        n += 1
+        try: back = tuple(Affine2D.fromstring(Affine2D(*vals).tostring()))
+        except Exception as ex: back = repr(ex)
+        if back != vals: viol('tostring then fromstring returns the same matrix', {'matrix': vals}, vals, back)
     return found[:3], {'evaluations': n}
 
 def judge_rect_to_rect(src, dst, al, mos):
